@@ -63,9 +63,15 @@ def main():
         for inp, k in sel:
             nt = rng.choice([1, 2, 7, 29, 57, 100, 100, 143])
             pf = rng.choice([0.0, 0.07, 0.14, 0.29, 0.5, 0.93])
+            pcs = 0.85
+            if si % 5 == 2:
+                # large groups: counts beyond the range of 8-bit (and, thorough tier, 16-bit) integers, also among out-of-codespace trials
+                nt = rng.choice([700, 1500]) if tier == 'quick' else rng.choice([700, 1500, 70000 if si % 25 == 2 else 3000])
+                pf = rng.choice([0.5, 0.93])
+                pcs = 0.5
             trials = []
             for _ in range(nt):
-                cs = rng.random() < 0.85
+                cs = rng.random() < pcs
                 eff = [1 if rng.random() < pf else 0 for _ in range(2 * k)]
                 succ = cs and not any(eff)
                 if rng.random() < 0.03:
